@@ -344,6 +344,13 @@ Definition get_message_code : list dstmt :=
 (* driver/netconf/rpc.go Driver.sendRPC (the polling goroutine as one effect) *)
 Definition send_rpc_code : list dstmt :=
   [DIf (DAtom "d.ForceSelfClosingTags") [] []; DCall "m.serialize(d.SelectedVersion, d.ForceSelfClosingTags, d.ExcludeHeader)"; DIf (DNot (DEq "err" "nil")) [DReturn "nil, err"] []; DAssign "r" "response.NewNetconfResponse( serialized.rawXML, serialized.framedXML, d.Transport.GetHost(), d.Transport.GetPort(), d.SelectedVersion, )"; DAssign "err" "d.Channel.WriteAndReturn(serialized.framedXML, false)"; DIf (DNot (DEq "err" "nil")) [DReturn "nil, err"] []; DIf (DEq "d.SelectedVersion" "V1Dot1") [DAssign "err" "d.Channel.WriteReturn()"; DIf (DNot (DEq "err" "nil")) [DReturn "nil, err"] []] []; DAssign "done" "make(chan []byte)"; DCall "context.WithCancel(context.Background()) -> ctx, cancel"; DCall "defer cancel()"; DCall "go func() { defer close(done) var data []byte for { if ctx.Err() != nil { return } data = d.getMessage(m.MessageID) if data != nil { break } time.Sleep(5 * time.Microsecond) } select { case done <- data: case <-ctx.Done(): } }()"; DAssign "timer" "time.NewTimer(d.Channel.GetTimeout(op.Timeout))"; DSwitch "select" [(["err = <-d.errs"], [DReturn "nil, err"]); (["<-timer.C"], [DReturn "nil, fmt.Errorf(""%w: channel timeout sending input to device"", util.ErrTimeoutError)"]); (["data := <-done"], [DCall "r.Record(data)"])]; DReturn "r, nil"].
+(* channel/read.go Channel.read (the read loop), Channel.Read, Channel.ReadAll *)
+Definition chan_read_loop_code : list dstmt :=
+  [DCall "defer c.exitedOnce.Do(func() { close(c.exited) })"; DRange "_" "forever" [DIf (DAtom "ready <-c.done") [DReturn ""] []; DCall "c.t.Read()"; DIf (DNot (DEq "err" "nil")) [DIf (DAtom "ready <-c.done") [DReturn ""] []; DIf (DAtom "errors.Is(err, io.EOF)") [DReturn ""] []; DSwitch "select" [(["c.Errs <- err"], []); (["<-c.done"], [DReturn ""])]; DCall "time.Sleep(c.ReadDelay)"; DContinue] []; DIf (DEq "len(b)" "0") [DCall "time.Sleep(c.ReadDelay)"; DContinue] []; DAssign "b" "bytes.ReplaceAll(b, []byte(""\r""), []byte(""""))"; DIf (DAtom "bytes.Contains(b, []byte(""\x1b""))") [DAssign "b" "util.StripANSI(b)"] []; DCall "c.Q.Enqueue(b)"; DIf (DNot (DEq "c.ChannelLog" "nil")) [DCall "c.ChannelLog.Write(b)"; DIf (DNot (DEq "err" "nil")) [] []] []; DCall "time.Sleep(c.ReadDelay)"]].
+Definition chan_read_code : list dstmt :=
+  [DSwitch "select" [(["err := <-c.Errs"], [DReturn "nil, err"]); ([], [])]; DIf (DAtom "ready <-c.exited") [DReturn "nil, util.ErrConnectionError"] []; DAssign "b" "c.Q.Dequeue()"; DIf (DEq "b" "nil") [DReturn "nil, nil"] []; DReturn "b, nil"].
+Definition chan_read_all_code : list dstmt :=
+  [DSwitch "select" [(["err := <-c.Errs"], [DReturn "nil, err"]); ([], [])]; DAssign "b" "c.Q.DequeueAll()"; DIf (DEq "b" "nil") [DReturn "nil, nil"] []; DReturn "b, nil"].
 (* driver/netconf/read.go Driver.read (the NETCONF read loop) *)
 Definition nc_read_code : list dstmt :=
   [DRange "_" "forever" [DIf (DAtom "ready <-d.done") [DReturn ""] []; DCall "d.Channel.Read()"; DIf (DNot (DEq "err" "nil")) [DSwitch "select" [(["d.errs <- err"], []); (["<-d.done"], [DReturn ""])]] []; DAssign "b" "append(b, rb...)"; DIf (DAtom "d.Channel.PromptPattern.Match(b)") [DIf (DAtom "bytes.Contains(b, []byte(""</rpc>""))") [DSwitch "d.SelectedVersion" [(["V1Dot0"], [DAssign "ss" "patterns.v1Dot0Delim.Split(string(b), endRPCSplitLen)"]); (["V1Dot1"], [DAssign "ss" "patterns.v1Dot1Delim.Split(string(b), endRPCSplitLen)"])]; DAssign "b" "[]byte(ss[1])"] [DIf (DAtom "d.Channel.PromptPattern.Match(b)") [DAssign "messageID" "zero int"; DAssign "subID" "zero int"; DAssign "messageID" "getID(patterns.messageID.FindSubmatch(b))"; DIf (DAtom "bytes.Contains(b, []byte(""</subscription-id>""))") [DAssign "subID" "getID(patterns.subscriptionID.FindSubmatch(b))"] []; DIf (DNot (DEq "messageID" "0")) [DCall "d.storeMessage(messageID, b)"] []; DIf (DNot (DEq "subID" "0")) [DCall "d.storeSubscriptionMessage(subID, b)"] []; DAssign "b" "nil"] []]] []; DCall "time.Sleep(d.Channel.ReadDelay)"]].
